@@ -3,6 +3,7 @@
 From Coq Require Import ZArith QArith List Bool.
 From RV Require Import Base.Wire Base.Text Lang.PyAst Lang.PySem Gen.SafeCasts Lang.ConstEval Proofs.ConstEvalP Proofs.ConstEvalCostP Proofs.ConstEvalBoundP.
 From RV Require Import Lang.Regex Gen.Regexes Proofs.RegexP Proofs.RegexTableP Gen.SetSites Lang.FoldSession Proofs.FoldSessionP.
+From RV Require Import Lang.VariantCost Proofs.VariantCostP.
 Import ListNotations.
 Open Scope Z_scope.
 
@@ -248,3 +249,52 @@ Example C11_blank_run_cubic_witness :
   Z.of_nat (paths blank_args (repeat 32 64)) = 47905.
 Proof. exact blank_args_cubic. Qed.
 Print Assumptions C11_blank_run_cubic_witness.
+
+(* ---------------------------------------------------------------- 'terminates promptly': pieces of a script that refer to
+   each other (Lang/VariantCost.v).  A user function is parsed again for every call signature it is called with - the work of
+   the def / call machinery is the number of _parse_function invocations, each of which parses a whole body and meets the
+   calls inside it.  [vrun true] is _ensure_function_variant as the source has it: the memo in front of _parse_function is
+   looked up through the alias table (requested signature -> the signature the variant was stored under after its
+   parameters were promoted).  For EVERY script of the fragment (any call graph: recursion, forward calls, calls of all
+   earlier helpers; any promotion) and every fuel: *)
+
+(* no (function, call signature) is parsed twice *)
+Theorem C11_variant_parsed_once : forall fuel p, NoDup (forced (trace (vrun true fuel p))).
+Proof. exact variant_parsed_once. Qed.
+Print Assumptions C11_variant_parsed_once.
+
+Theorem C11_variant_parsed_once_count : forall fuel p k, (count_occ key_dec (forced (trace (vrun true fuel p))) k <= 1)%nat.
+Proof. exact variant_parsed_once_count. Qed.
+Print Assumptions C11_variant_parsed_once_count.
+
+(* a forced parse only happens for a call signature that occurs (was recorded in function_call_signatures) *)
+Theorem C11_variant_parsed_only_when_called : forall fuel p k,
+  In k (forced (trace (vrun true fuel p))) -> In k (sigs (vrun true fuel p)).
+Proof. exact variant_parsed_only_when_called. Qed.
+Print Assumptions C11_variant_parsed_only_when_called.
+
+(* hence the number of body parses is at most (defs of the script) + (distinct (function, signature) pairs called): at most
+   linear in the number of call sites, where the raw lookup below needs fan-out ^ depth *)
+Theorem C11_variant_parses_bounded : forall fuel p,
+  (length (trace (vrun true fuel p)) <= n_defs p + length (sigs (vrun true fuel p)))%nat.
+Proof. exact variant_parses_bounded. Qed.
+Print Assumptions C11_variant_parses_bounded.
+
+(* the guard is tight: with the fast path keyed by the RAW call signature (no alias resolution) a helper whose parameter is
+   promoted to String is parsed again at every call *)
+Theorem C11_variant_raw_lookup_refuted : exists p k, (2 <= count_occ key_dec (forced (trace (vrun false 100 p))) k)%nat.
+Proof. exact variant_raw_lookup_refuted. Qed.
+Print Assumptions C11_variant_raw_lookup_refuted.
+
+(* the helper chain tag0(v) = v + ";", tag_k(v) = tag_{k-1}(v) + tag_{k-1}(v) + tag_{k-1}(v) + v, y = tag_d(7): 2d + 2 body
+   parses through the alias table, (more than) tripling per level without; fuel never runs out; the recorded order of
+   parses and the alias table of the model on a small chain *)
+Example C11_variant_chain_series :
+  map (fun d => Z.of_nat (parses true (chain d 3))) depths = [2; 4; 6; 8; 10; 12] /\
+  map (fun d => Z.of_nat (parses false (chain d 3))) depths = [2; 9; 31; 98; 300; 907] /\
+  map (fun d => oof (vrun false 2000 (chain d 3))) depths = map (fun _ => false) depths /\
+  rev (trace (vrun true 100 (chain 2 3))) = [(0, None); (1, None); (0, Some [0]); (2, None); (1, Some [0]); (2, Some [0])] /\
+  alias (vrun true 100 (chain 1 3)) = [((1, [0]), [3]); ((0, [0]), [3])] /\
+  n_defs (chain 5 3) = 6%nat /\ length (sigs (vrun true 2000 (chain 5 3))) = 6%nat.
+Proof. exact variant_chain_series. Qed.
+Print Assumptions C11_variant_chain_series.
